@@ -6,6 +6,9 @@ import (
 	"math/rand"
 	"os"
 	"path/filepath"
+	"regexp"
+	"strings"
+	"time"
 
 	"verif/harness/internal/agent"
 	"verif/harness/internal/core"
@@ -188,9 +191,9 @@ func C04(c *core.Ctx) {
 	c.SetCov("rule", "seeded randomised PFCP histories on the UP4 datapath (1-3 associations, up to 5 live sessions sharing gNB peers and application "+
 		"filters, FAR/QER/PDR updates, flows added and removed, association release, agent kill + restart against the populated switch, random slice id / "+
 		"QFI->TC map / default TC) executed against the real agent process and the harness' P4Runtime server; every step's switch state judged by "+
-		"Up4Image!TablesAreImage; in addition every applicable sequence of 4 (thorough: 5) operations over {establish A, establish B, A forwards to gNB 0 / gNB 1 / buffers / drops, "+
+		"Up4Image!TablesAreImage; in addition (GEN) TLC enumerates from spec/Up4Script.tla every behaviour of 4 (thorough: 5) operations over {establish A, establish B, A forwards to gNB 0 / gNB 1 / buffers / drops, "+
 		"A loses a flow, A's QER is updated, B moves to gNB 1, delete A, delete B, release A's association} for two sessions of different associations that share gNB and application filters "+
-		"(629 / 4 849 sequences, each from the empty state and followed by the deletion of what is left); evaluations = script steps; distinct_nontrivial = accepted session requests")
+		"(629 / 4 849 scripts) and the harness replays each into the real agent, from the empty state and followed by the deletion of what is left; evaluations = script steps; distinct_nontrivial = accepted session requests")
 
 	// bounded-exhaustive part: every applicable sequence of 4 (thorough: 5) operations over two sessions of different
 	// associations that share their gNB and application filters (see scopeOps), each from the empty state
@@ -199,11 +202,36 @@ func C04(c *core.Ctx) {
 		scopeShards, scopeLen = 14, 5
 	}
 
+	// GEN: TLC enumerates the scripts (spec/Up4Script.tla), the harness replays them into the real agent
+	scripts := filepath.Join(c.Scratch, "scripts.json")
+	genCfg := "MCUp4Script.cfg"
+
+	if scopeLen == 5 {
+		genCfg = "MCUp4Script5.cfg"
+	}
+
+	if c.ReplayDir == "" {
+		gr, err := c.RunTLC(core.TLCRun{Module: "Up4Script", Cfg: genCfg, Workers: 1, HeapMB: 1024, Timeout: 5 * time.Minute, Label: "gen"})
+		if err != nil || !gr.OK() {
+			c.Inconclusive("GEN: TLC did not enumerate the scripts of Up4Script")
+			scopeShards = 0
+		} else {
+			n, err := writeScripts(gr.OutputPath, scripts)
+			if err != nil || n == 0 {
+				c.Inconclusive("GEN: no scripts in TLC's output: %v", err)
+				scopeShards = 0
+			}
+
+			c.AddCount("gen_scripts", int64(n))
+			c.AddTLC("gen", gr)
+		}
+	}
+
 	res := runE2EMixed(c, shards+scopeShards, "TraceE2E_C04.cfg", func(i int) (string, interface{}) {
 		d, tr := shardDir(c, i)
 		if i >= shards {
 			return "e2e-up4-scope", Up4ScopeParams{Dir: d, Trace: tr, AgentBin: filepath.Join(c.BinDir, "verif-agent"), N4Addr: n4For(i), Seed: c.Seed*1000 + 40 + int64(i),
-				Len: scopeLen, Shard: i - shards, Of: scopeShards}
+				Scripts: scripts, Shard: i - shards, Of: scopeShards}
 		}
 
 		return "e2e-up4", Up4Params{Dir: d, Trace: tr, AgentBin: filepath.Join(c.BinDir, "verif-agent"), N4Addr: n4For(i), Seed: c.Seed*1000 + int64(i), Scenarios: scen, Steps: steps,
@@ -212,22 +240,18 @@ func C04(c *core.Ctx) {
 	judgeE2E(c, res, map[string]bool{"InEnvelope": true, "Up4Envelope": true})
 }
 
-// Up4ScopeParams parameterises the bounded-exhaustive worker: every applicable sequence of length Len over the
-// operation alphabet below, the sequences whose index is Shard modulo Of.
+// Up4ScopeParams parameterises the bounded-exhaustive worker: it replays the scripts TLC generated from
+// spec/Up4Script.tla (every behaviour of N operations), those whose index is Shard modulo Of.
 type Up4ScopeParams struct {
 	Dir      string `json:"dir"`
 	Trace    string `json:"trace"`
 	AgentBin string `json:"agentBin"`
 	N4Addr   string `json:"n4"`
 	Seed     int64  `json:"seed"`
-	Len      int    `json:"len"`
+	Scripts  string `json:"scripts"` // file with the scripts TLC generated from Up4Script.tla (JSON array of arrays of operation names)
 	Shard    int    `json:"shard"`
 	Of       int    `json:"of"`
 }
-
-// the alphabet: two sessions A (association p1) and B (association p2) of the same shape - they share their gNB and
-// their application filters - and what a control plane does to them
-var scopeOps = []string{"EA", "EB", "A:fwd0", "A:fwd1", "A:buff", "A:drop", "A:rmflow", "A:qer", "B:fwd1", "DA", "DB", "XA"}
 
 func e2eUp4ScopeWorker(args []string) error {
 	var p Up4ScopeParams
@@ -277,59 +301,12 @@ func e2eUp4ScopeWorker(args []string) error {
 
 	idx := -1
 
-	var run func(prefix []string, a, b bool)
-
 	var seqs [][]string
 
-	// enumerate applicable sequences (A / B live or not is all the applicability needs)
-	run = func(prefix []string, a, b bool) {
-		if len(prefix) == p.Len {
-			seqs = append(seqs, append([]string(nil), prefix...))
-			return
-		}
-
-		for _, op := range scopeOps {
-			na, nb := a, b
-
-			switch {
-			case op == "EA":
-				if a {
-					continue
-				}
-
-				na = true
-			case op == "EB":
-				if b {
-					continue
-				}
-
-				nb = true
-			case op == "DA" || op == "XA":
-				if !a {
-					continue
-				}
-
-				na = false
-			case op == "DB":
-				if !b {
-					continue
-				}
-
-				nb = false
-			case op[0] == 'A':
-				if !a {
-					continue
-				}
-			case op[0] == 'B':
-				if !b {
-					continue
-				}
-			}
-
-			run(append(prefix, op), na, nb)
-		}
+	if b, err := os.ReadFile(p.Scripts); err != nil || json.Unmarshal(b, &seqs) != nil || len(seqs) == 0 {
+		sum.Err = "no scripts"
+		return fmt.Errorf("no scripts in %s", p.Scripts)
 	}
-	run(nil, false, false)
 
 	sum.Stats["sequences_total"] = len(seqs)
 
@@ -411,4 +388,34 @@ func e2eUp4ScopeWorker(args []string) error {
 	}
 
 	return nil
+}
+
+var reSeqLine = regexp.MustCompile(`^<<"SEQ", <<(.*)>>>>$`)
+
+// writeScripts extracts the scripts TLC printed (lines <<"SEQ", <<"op", ...>>>>) and writes them as JSON.
+func writeScripts(tlcOut, dst string) (int, error) {
+	b, err := os.ReadFile(tlcOut)
+	if err != nil {
+		return 0, err
+	}
+
+	var seqs [][]string
+
+	for _, ln := range strings.Split(string(b), "\n") {
+		m := reSeqLine.FindStringSubmatch(strings.TrimSpace(ln))
+		if m == nil {
+			continue
+		}
+
+		var ops []string
+		for _, f := range strings.Split(m[1], ",") {
+			ops = append(ops, strings.Trim(strings.TrimSpace(f), `"`))
+		}
+
+		seqs = append(seqs, ops)
+	}
+
+	out, _ := json.Marshal(seqs)
+
+	return len(seqs), os.WriteFile(dst, out, 0o644)
 }
